@@ -880,6 +880,13 @@ def spow(a, b):
         num, den = b.arg(0), b.arg(1)
         if z3.is_app(num) and num.decl().name() == 'ln' and z3.is_app(den) and den.decl().name() == 'ln' and \
                 z3.is_rational_value(den.arg(0)) and fr(den.arg(0)) == 2:
+            if z3.is_rational_value(num.arg(0)):
+                # CONCRETE x: the identity is not assumed -- the float64 evaluation is what runs, and it lands just below x for many x
+                # (x = 14, 18, 28, ...: eqsig defect F13); the exact rational value of that float64 result is returned, so a truncation
+                # downstream sees what CPython sees.  Only the symbolic case below rests on A4.
+                import numpy as _np
+                xv = float(fr(num.arg(0)))
+                return Q(Fraction(float(2 ** (_np.log(xv) / _np.log(2)))))
             return num.arg(0)
     if is_num(b):
         e = fr(b)
